@@ -340,6 +340,24 @@ def run(ctx):
         ctx.check(okv, "R2.8", "RecordDescriptor._unpack:arguments", f"`return {norm(v)[:70]}` does not pass ({', '.join(dp8[-2:])}) through unchanged", rt,
                   f"RecordDescriptor({', '.join(dp8[-2:])})", key="R2.8:RecordDescriptor._unpack:definition-rewritten")
 
+    # ------------------------------------------------------------------ R2.9 the packed form is computed from the current state
+    ctx.rule("R2.9", "no _pack method of a field type stores an attribute on the value it packs (a cached packed form goes stale when a setter changes the value: the second "
+                     "write of the record then carries the old bytes while the record reports the new value)")
+    n9 = 0
+    for mname9, mod9 in sorted(prog.modules.items()):
+        if not mname9.startswith("flow.record.fieldtypes"):
+            continue
+        for c9 in [n for n in ast.walk(mod9.tree) if isinstance(n, ast.ClassDef)]:
+            pk9 = prog.methods_of(c9).get("_pack")
+            if pk9 is None:
+                continue
+            n9 += 1
+            me9 = func_params(pk9)[0] if func_params(pk9) else "self"
+            st9 = [n for n in ast.walk(pk9) if isinstance(n, ast.Attribute) and isinstance(n.ctx, (ast.Store, ast.Del)) and isinstance(n.value, ast.Name) and n.value.id == me9]
+            ctx.check(not st9, "R2.9", f"{c9.name}._pack:stateless", f"{c9.name}._pack stores `{norm(st9[0]) if st9 else ''}`: the written form can come from a cache instead of the current value", st9[0] if st9 else pk9,
+                      "no attribute store in _pack", key=f"R2.9:{c9.name}._pack:caches-packed-form")
+    ctx.floor("R2.9", "_pack methods of field types", n9, 8)
+
 
 
 def _try_fold(prog, module, e):
